@@ -90,7 +90,8 @@ def parse_dump(tok):
 
 # ---- scenario building ------------------------------------------------------------------------
 def ipv4_packet(src, dst, extra=b""):
-    return (bytes([0x45, 0, 0, 20 + len(extra), 0, 0, 0, 0, 64, 17, 0, 0]) + src + dst + extra).hex()
+    tl = 20 + len(extra)
+    return (bytes([0x45, 0, (tl >> 8) & 0xff, tl & 0xff, 0, 0, 0, 0, 64, 17, 0, 0]) + src + dst + extra).hex()
 
 
 def eth_frame(dst, src, vlan=None, extra=b"\x08\x00abcd"):
